@@ -14,6 +14,10 @@ Tie lemmas for C04: facts regenerated from /repo's current source on every run. 
 (5) the lock structure of the Gang methods the small-step model treats as ONE critical section each
     (one gang.lock.Lock/RLock, one deferred Unlock, no explicit Unlock, no child-set access before
     the Lock), and with it `setChild_atomic_safe` instantiated at the extracted number of sections;
+(7) what the permit / rejection decisions read: isGangValidForPermit mentions exactly the fields the model's
+    `validForPermit` uses (so WaitingGangIDs, BindingMemberPods and the representative pod, which the model
+    leaves out, cannot influence a release), and Unreserve / AfterPostFilter / PostBind call the gang methods
+    the model's `unreserve` / `postFilter` / `postBind` mirror, in that order;
 (6) the test guarding the "gang is a group of its own" fallback on both initialisation paths
     (`len(groupSlice) == 0`, the model's `groupOrSelf`).
 -/
@@ -52,6 +56,21 @@ theorem tie_gang_methods_one_section :
       [("setChild", 1, 1, 0, false), ("addAssumedPod", 1, 1, 0, false), ("delAssumedPod", 1, 1, 0, false),
        ("addBoundPod", 1, 1, 0, false), ("deletePod", 1, 1, 0, false), ("isGangValidForPermit", 1, 1, 0, false),
        ("GetGangSummary", 1, 1, 0, false)] := by decide
+
+theorem tie_validForPermit_reads :
+    C04.validForPermitReads =
+      ["BoundChildren", "GangGroupInfo", "GangMatchPolicy", "GangMatchPolicyOnlyWaiting",
+       "GangMatchPolicyWaitingAndRunning", "HasGangInit", "MinRequiredNumber", "WaitingForBindChildren",
+       "isGangOnceResourceSatisfied"] := by decide
+
+theorem tie_core_rollback_shape :
+    C04.coreUnreserveCalls =
+      ["IsPodNeedGang", "GetGangByPod", "delAssumedPod", "getGangMatchPolicy", "isGangOnceResourceSatisfied",
+       "getGangMode", "rejectGangGroupById"] ∧
+    C04.coreAfterPostFilterCalls =
+      ["IsPodNeedGang", "GetGangByPod", "getGangMatchPolicy", "isGangOnceResourceSatisfied", "getGangMode",
+       "clearWaitingGang", "rejectGangGroupById"] ∧
+    C04.corePostBindCalls = ["IsPodNeedGang", "GetGangByPod", "addBoundPod"] := by decide
 
 theorem tie_group_fallback_is_len_test :
     C04.groupFallbackTest = [("tryInitByPodConfig", "len==0"), ("tryInitByPodGroup", "len==0")] := by decide
